@@ -298,6 +298,11 @@ def _case(draw, pid, tier):
         max_obj, max_sp, max_fam = (8, 7, 4) if not labelled else (6, 5, 3)
     if polytomy:
         max_obj, max_sp, max_fam = 4, 4, 3
+    if pid == "C10" and single_family and draw(st.booleans()):
+        # swarm mode "deep species tree": with one family every solver is cheap, and C10's
+        # stated bound is 8 species - transfers between a species five or more levels deep and
+        # a shallow one exist only there (C10-thl-transfer-recipient-level-window)
+        max_sp = 8
     ninputs = 1 if draw(st.integers(0, 3)) else 2
     chain = (pid == "C03" or (pid == "C05" and algos[0] == "superdtl")) \
         and draw(st.integers(0, 2)) == 0
